@@ -72,10 +72,16 @@ type fClient struct {
 	buf    []byte
 	bufErr error
 	before func() // runs at the start of ReadBuffered
+	ctx    context.Context
 }
 
 func (c *fClient) Conn() net.Conn           { return c.src }
-func (c *fClient) Context() context.Context { return context.Background() }
+func (c *fClient) Context() context.Context {
+	if c.ctx != nil {
+		return c.ctx
+	}
+	return context.Background()
+}
 func (c *fClient) Close() error             { return c.src.Close() }
 func (c *fClient) ReadBuffered() ([]byte, error) {
 	if c.before != nil {
@@ -87,7 +93,8 @@ func (c *fClient) ReadBuffered() ([]byte, error) {
 // ---------------------------------------------------------------- scripted backends
 
 type fBackend struct {
-	kind     string // ok | refuse | reset
+	kind     string // ok | refuse | reset | badaddr | blackhole
+	filler   net.Conn // blackhole: the one connection that fills the accept queue
 	addr     string
 	ln       net.Listener
 	fd       int // refuse: a socket that is bound but never listens
@@ -114,6 +121,31 @@ func startFBackend(kind string, hsLen int, resets chan struct{}) *fBackend {
 			panic(err)
 		}
 		return &fBackend{kind: kind, addr: fmt.Sprintf("127.0.0.1:%d", sa.(*syscall.SockaddrInet4).Port), fd: fd, hsLen: hsLen, accepted: make(chan string, 64), resets: resets}
+	}
+	if kind == "badaddr" {
+		// an address the dialer rejects without touching the network (what a client-made "$1" template can produce)
+		return &fBackend{kind: kind, addr: "]not-a-host.x:1", fd: -1, hsLen: hsLen, accepted: make(chan string, 64), resets: resets}
+	}
+	if kind == "blackhole" {
+		// A dial that TIMES OUT: a listening socket with backlog 0 whose accept queue is filled by one connection
+		// of the harness; the kernel drops every further SYN, so a dial ends with the dialer's timeout.
+		fd, err := syscall.Socket(syscall.AF_INET, syscall.SOCK_STREAM, 0)
+		if err != nil {
+			panic(err)
+		}
+		if err = syscall.Bind(fd, &syscall.SockaddrInet4{Addr: [4]byte{127, 0, 0, 1}}); err != nil {
+			panic(err)
+		}
+		if err = syscall.Listen(fd, 0); err != nil {
+			panic(err)
+		}
+		sa, err := syscall.Getsockname(fd)
+		if err != nil {
+			panic(err)
+		}
+		b := &fBackend{kind: kind, addr: fmt.Sprintf("127.0.0.1:%d", sa.(*syscall.SockaddrInet4).Port), fd: fd, hsLen: hsLen, accepted: make(chan string, 64), resets: resets}
+		b.filler, _ = net.DialTimeout("tcp", b.addr, 5*time.Second)
+		return b
 	}
 	ln, err := net.Listen("tcp", "127.0.0.1:0")
 	if err != nil {
@@ -150,14 +182,15 @@ func startFBackend(kind string, hsLen int, resets chan struct{}) *fBackend {
 	return b
 }
 
-// flush returns once every connection accepted before now has had its initial handling done.
-func (b *fBackend) flush() {
-	if b.kind == "refuse" {
-		return
+// flush returns once every connection accepted before now has had its initial handling done, and how many
+// connections (not counting the harness's own) that were.
+func (b *fBackend) flush() (n int) {
+	if b.ln == nil {
+		return 0
 	}
 	s, err := net.Dial("tcp", b.addr)
 	if err != nil {
-		return
+		return 0
 	}
 	me := s.LocalAddr().String()
 	_, _ = s.Write(make([]byte, b.hsLen))
@@ -165,17 +198,23 @@ func (b *fBackend) flush() {
 		if p == me {
 			break
 		}
+		n++
 	}
 	_ = s.Close()
 	for len(b.resets) > 0 {
 		<-b.resets
 	}
+	return n
 }
 
 func (b *fBackend) stop() {
-	if b.kind != "refuse" {
+	if b.ln != nil {
 		_ = b.ln.Close()
-	} else {
+	}
+	if b.filler != nil {
+		_ = b.filler.Close()
+	}
+	if b.fd >= 0 {
 		_ = syscall.Close(b.fd)
 	}
 	b.wg.Wait()
@@ -218,10 +257,25 @@ func faultCases() []faultCase {
 		{[]string{"reset", "reset"}, []string{"nobuf", "bigbuf", "rb-error"}},
 		{[]string{"refuse", "reset"}, []string{"nobuf", "bigbuf", "rb-error"}},
 		{[]string{"reset", "refuse"}, []string{"nobuf", "bigbuf", "rb-error"}},
+		// other classes of dial failure: an address the dialer rejects, a client whose context is already cancelled
+		// (every dial fails at once), a dial that runs into the dial timeout
+		{[]string{"badaddr", "ok"}, []string{"nobuf", "smallbuf", "rb-error"}},
+		{[]string{"badaddr", "refuse"}, []string{"nobuf"}},
+		{[]string{"ok", "ok"}, []string{"ctx-cancelled", "nobuf"}},
+		{[]string{"refuse", "reset"}, []string{"ctx-cancelled", "nobuf"}},
+		{[]string{"blackhole", "ok"}, []string{"nobuf"}},
+		{[]string{"refuse", "blackhole", "ok"}, []string{"smallbuf"}},
+		{[]string{"blackhole", "blackhole"}, []string{"nobuf"}},
 	}
+	seen := map[string]bool{}
 	for _, st := range []config.Strategy{config.StrategySequential, config.StrategyRoundRobin, config.StrategyLeastConnections, config.StrategyLowestLatency, config.StrategyRandom} {
 		for _, cf := range cfgs {
 			for _, a := range cf.scripts {
+				if k := fmt.Sprint(st, cf.kinds, a); seen[k] {
+					continue // (ok,ok)/nobuf is listed twice
+				} else {
+					seen[k] = true
+				}
 				out = append(out, faultCase{Scenario: "fault", Strategy: string(st), Backends: cf.kinds, Conns: []string{a}})
 				for _, b := range cf.scripts {
 					out = append(out, faultCase{Scenario: "fault", Strategy: string(st), Backends: cf.kinds, Conns: []string{a, b}})
